@@ -171,4 +171,13 @@ theorem trace_branch_dest (v : Variant) (c : Regs) (f : Nat → U8)
   simp
   by_cases hh : BitVec.toNat (f (lin c.RK (c.PC + 1#16))) < 128 <;> simp [hh]
 
+/-! ### non-vacuity: one concrete trace line, evaluated by the kernel -/
+
+/-- `BNE $FC` at $00:8010 in 8-bit mode: two bytes, mnemonic, destination $800E (backward), live 8-bit registers -/
+theorem trace_example :
+    (traceRec .primary { (default : Regs) with PC := 0x8010, M := true, X := true, RAl := 0x12, Cycles := 3 }
+      (fun a => if a = 0x8010 then 0xD0 else if a = 0x8011 then 0xFC else 0)).canon =
+      "3 00:8010|d0 fc|bne|$fc ($800e -)|A=--12 X=--00 Y=--00|--MX----" := by
+  decide +kernel
+
 end C14
